@@ -63,6 +63,9 @@ def cases(tier):
         return {"U": U, "m": m, "args": args, "rets": rets, "prot": prot,
                 "wrappers": wrappers, "complex_as": complex_as,
                 "validator": draw(st.sampled_from([None, "soft"])),
+                # the polymorphic switch with values of the declared classes (mixed-subclass
+                # values are C16's subject): it must not change the document
+                "poly": draw(st.sampled_from([False, False, True])),
                 "str_keys": draw(st.booleans())}
     return one()
 
@@ -75,6 +78,8 @@ def _protocols(case):
            "msgpackrpc": MessagePackRpc}[case["prot"]]
     kw = dict(ignore_wrappers=not case["wrappers"],
               complex_as=list if case["complex_as"] == "list" else dict)
+    if case.get("poly"):
+        kw["polymorphic"] = True
     return cls(validator=case["validator"], **kw), cls(**kw)
 
 
@@ -103,7 +108,8 @@ INTERESTING = {"nested_object", "wrapped_array>=2", "unwrapped_array>=2", "inher
 def run_case(case, rec):
     fails = []
     m = case["m"]
-    cfg = "%s/w=%s/%s/%s" % (case["prot"], case["wrappers"], case["complex_as"], case["validator"])
+    cfg = "%s/w=%s/%s/%s%s" % (case["prot"], case["wrappers"], case["complex_as"], case["validator"],
+                               "/poly" if case.get("poly") else "")
     labs = shape_of(case)
     try:
         B = build.Built(case["U"])
